@@ -165,6 +165,16 @@ def run_c03(ctx) -> Corr:
         h.ops.append(("recv", l, (), gw.DEFAULT_TIME))
         h.ops.append(("recv", PROBE, (), gw.DEFAULT_TIME))
     hists.append(h)
+    # 'whatever state the controller is in': registries that are full or nearly full, with and without the gateway's
+    # own node 0 and the broadcast id 255, every kind of line that looks at the registry as a whole
+    for vi, (lo, hi) in enumerate(((1, 254), (0, 254), (0, 253), (1, 253), (2, 254), (0, 255), (1, 255))):
+        for pv in ((lib.VERSIONS[vi % 5], None) if ctx.tier == "quick" else tuple(lib.VERSIONS) + (None,)):
+            h = Hist(pv, True, [("node", n, 17, "2.0", "", "", 0, 0, False, False) for n in range(lo, hi + 1)])
+            for l in ("255;255;3;0;3;", "255;255;3;0;3;", "9;255;3;0;3;", "254;255;0;0;17;2.0", "255;255;3;0;3;", "0;255;0;0;18;2.1.0",
+                      "255;255;3;0;3;", "0;255;3;0;14;ready", "254;255;3;0;0;50"):
+                h.ops.append(("recv", l, (), gw.DEFAULT_TIME))
+                h.ops.append(("recv", PROBE, (), gw.DEFAULT_TIME))
+            hists.append(h)
     impl = run_both(hists, corr, ctx, "class", "outcome class")
     for h, io in zip(hists, impl):
         for i, op in enumerate(h.ops):
@@ -1187,7 +1197,14 @@ def older_types_history(rng, v_old: str, cross: bool, avoid_hb: bool, length: in
         r = rng.random()
         n = rng.choice(known_nodes if cross else known_nodes + [3])
         c = rng.choice((0, 1) if cross else (0, 1, 2))
-        if r < 0.1 and not cross:   # across 1.x -> 2.x: a re-presentation would forget the children (unknown child later)
+        if r < 0.1 and cross:
+            # across 1.x -> 2.x a re-presentation forgets the children, and a later reference to one would be an unknown
+            # child (outside the property's precondition): the node presents itself again AND then its children
+            h.ops.append(("recv", f"{n};255;0;0;17;2.0", (), gw.DEFAULT_TIME))
+            for cc in (0, 1):
+                h.ops.append(("recv", f"{n};{cc};0;0;6;c", (), gw.DEFAULT_TIME))
+            continue
+        if r < 0.1:
             line = f"{n};255;0;0;17;2.0"
         elif r < 0.2:
             line = f"{n};{c};0;0;6;d"
